@@ -115,7 +115,7 @@ def run_io(sess, fs: SimFS, plan: dict | None, fn, dry=None):
     plan = dict(plan or {})
     fault = plan.get("fault")
     if fault and "raw_call" not in fault:
-        if fault["kind"] == "close_error":
+        if fault["kind"] in ("close_error", "open_error"):
             fault = dict(fault, raw_call=-1)
         else:
             saved = dict(fs.files), set(fs.tainted)
@@ -228,7 +228,7 @@ class IoRead(OpSpec):
             fs.files[path] = data
         if not res.ok:
             sess.io_failed += 1
-            if any(k in ("eio_read",) for k in fired) and res.exc_name != "OpTimeout":
+            if any(k in ("eio_read", "open_error") for k in fired) and res.exc_name != "OpTimeout":
                 if not _is_oserror(res.exc):
                     out.probes.append("read_error_surfaced_as_" + res.exc_name)
                 out.probes.append("read_fault_raised")
@@ -335,6 +335,7 @@ class IoWrite(OpSpec):
         elif dest == "absent":
             fs.files.pop(path, None)
         parg = _path_arg(path, op.get("path_type", "str"))
+        before_bytes = fs.files.get(path)
         scratch = path + ".dry"
         if op.get("via") == "api":
             def via_api():
@@ -361,8 +362,12 @@ class IoWrite(OpSpec):
             sess.io_failed += 1
             fs.tainted.add(path)
             fs.lineage.pop(path, None)
-            if any(k in ("eio_write", "enospc", "close_error") for k in fired) and res.exc_name != "OpTimeout":
+            if any(k in ("eio_write", "enospc", "close_error", "open_error") for k in fired) and res.exc_name != "OpTimeout":
                 out.probes.append("write_fault_raised")
+                if "open_error" in fired and fs.files.get(path) != before_bytes:
+                    out.fail(prop, inv, "write_file could not open its destination (EACCES) and yet the destination changed: "
+                                        f"{None if before_bytes is None else len(before_bytes)} -> "
+                                        f"{None if fs.files.get(path) is None else len(fs.files[path])} bytes")
                 return out
             if frame_only:
                 out.probes.append("write_raised_outside_writer_domain")
